@@ -1,0 +1,99 @@
+//! Verification hooks (feature `verif-hooks`, OFF by default).
+//!
+//! Add-only accessors used by the external Kani harness crates to build an
+//! arbitrary value of `SrtlaConnection` (fields that are
+//! `pub(crate)` or private in a normal build) and to observe it afterwards.
+//! Nothing here is compiled unless the feature is enabled.
+
+use super::{BitrateTracker, CachedQuality, CongestionControl, LinkPhase, SrtlaConnection};
+
+type PacketLog = rustc_hash::FxHashMap<i32, u64>;
+
+macro_rules! vh_field {
+    ($get:ident, $get_mut:ident, $field:ident, $ty:ty) => {
+        #[inline]
+        pub fn $get(&self) -> &$ty {
+            &self.$field
+        }
+        #[inline]
+        pub fn $get_mut(&mut self) -> &mut $ty {
+            &mut self.$field
+        }
+    };
+}
+
+impl SrtlaConnection {
+    vh_field!(vh_packet_log, vh_packet_log_mut, packet_log, PacketLog);
+    vh_field!(
+        vh_highest_acked_seq,
+        vh_highest_acked_seq_mut,
+        highest_acked_seq,
+        i32
+    );
+    vh_field!(
+        vh_last_keepalive_sent,
+        vh_last_keepalive_sent_mut,
+        last_keepalive_sent,
+        Option<u64>
+    );
+    vh_field!(vh_stall_gated, vh_stall_gated_mut, stall_gated, bool);
+    vh_field!(
+        vh_stall_latched_since_ms,
+        vh_stall_latched_since_ms_mut,
+        stall_latched_since_ms,
+        u64
+    );
+    vh_field!(
+        vh_stall_recovery_since_ms,
+        vh_stall_recovery_since_ms_mut,
+        stall_recovery_since_ms,
+        u64
+    );
+    vh_field!(
+        vh_stall_gate_events,
+        vh_stall_gate_events_mut,
+        stall_gate_events,
+        u64
+    );
+    vh_field!(
+        vh_stall_probe_counter,
+        vh_stall_probe_counter_mut,
+        stall_probe_counter,
+        u32
+    );
+    vh_field!(
+        vh_silence_pulled,
+        vh_silence_pulled_mut,
+        silence_pulled,
+        bool
+    );
+    vh_field!(vh_silence_pulls, vh_silence_pulls_mut, silence_pulls, u64);
+    vh_field!(
+        vh_conn_timeout_ms,
+        vh_conn_timeout_ms_mut,
+        conn_timeout_ms,
+        u64
+    );
+    vh_field!(
+        vh_congestion,
+        vh_congestion_mut,
+        congestion,
+        CongestionControl
+    );
+    vh_field!(vh_bitrate, vh_bitrate_mut, bitrate, BitrateTracker);
+    vh_field!(
+        vh_quality_cache,
+        vh_quality_cache_mut,
+        quality_cache,
+        CachedQuality
+    );
+    vh_field!(vh_phase, vh_phase_mut, phase, LinkPhase);
+
+    /// The crate-private stall-guard steps, exposed for one-step harnesses.
+    pub fn vh_update_silence_pull(&mut self, now_ms: u64, min_in_flight: i32, ceiling_ms: u64) {
+        self.update_silence_pull(now_ms, min_in_flight, ceiling_ms)
+    }
+    pub fn vh_clear_stall_latch(&mut self) {
+        self.clear_stall_latch()
+    }
+}
